@@ -633,7 +633,7 @@ void bloom_filter_alloc<A>::internal_update(uint64_t h0, uint64_t h1) {
     throw std::logic_error("Cannot update a read-only filter");
   }
   const uint64_t num_bits = get_capacity();
-  for (uint16_t i = 1; i <= num_hashes_; i++) {
+  for (uint32_t i = 1; i <= num_hashes_; i++) { // 32 bits: a 16-bit counter never exceeds num_hashes_ = 65535
     const uint64_t hash_index = ((h0 + i * h1) >> 1) % num_bits;
     bit_array_ops::set_bit(bit_array_, hash_index);
   }
@@ -737,7 +737,7 @@ bool bloom_filter_alloc<A>::internal_query_and_update(uint64_t h0, uint64_t h1) 
   }
   const uint64_t num_bits = get_capacity();
   bool value_exists = true;
-  for (uint16_t i = 1; i <= num_hashes_; i++) {
+  for (uint32_t i = 1; i <= num_hashes_; i++) { // 32 bits: a 16-bit counter never exceeds num_hashes_ = 65535
     const uint64_t hash_index = ((h0 + i * h1) >> 1) % num_bits;
     bool value = bit_array_ops::get_and_set_bit(bit_array_, hash_index);
     if (!is_dirty_) { // a dirty count stays dirty until it is recounted
@@ -836,7 +836,7 @@ template<typename A>
 bool bloom_filter_alloc<A>::internal_query(uint64_t h0, uint64_t h1) const {
   if (is_empty()) return false;
   const uint64_t num_bits = get_capacity();
-  for (uint16_t i = 1; i <= num_hashes_; i++) {
+  for (uint32_t i = 1; i <= num_hashes_; i++) { // 32 bits: a 16-bit counter never exceeds num_hashes_ = 65535
     const uint64_t hash_index = ((h0 + i * h1) >> 1) % num_bits;
     if (!bit_array_ops::get_bit(bit_array_, hash_index))
       return false;
